@@ -168,8 +168,11 @@ fn child(kind: Kind) {
     STAGE.store(3, Ordering::SeqCst);
 }
 
+/// multiplies the wall-clock allowances (argv[2]; re-confirmation runs on a loaded machine)
+static SCALE: AtomicU32 = AtomicU32::new(1);
+
 fn wait_stage(at_least: u32, ms: u32) -> bool {
-    for _ in 0..ms * 5 {
+    for _ in 0..ms * 5 * SCALE.load(Ordering::SeqCst) {
         if STAGE.load(Ordering::SeqCst) >= at_least {
             return true;
         }
@@ -198,6 +201,15 @@ pub fn main() -> i32 {
         write(2, b"usage: syncprobe <m|rww|rwr>_<before|after>\n");
         return 2;
     };
+    if let Some(Ok(x)) = args.next() {
+        let mut v = 0u32;
+        for b in x.as_bytes() {
+            if b.is_ascii_digit() {
+                v = v * 10 + u32::from(*b - b'0');
+            }
+        }
+        SCALE.store(v.clamp(1, 1000), Ordering::SeqCst);
+    }
     let kind = if sc.starts_with("m_") {
         Kind::M
     } else if sc.starts_with("rww_") {
